@@ -148,6 +148,7 @@ class Context:
         self.feasible = feasible                      # callable(list[BoolT]) -> 'sat'|'unsat'|'unknown'
         self.max_decisions = max_decisions
         self.notes: list = []
+        self.subst: dict = {}                         # var Atom -> Poly, from equalities decided true on this path
         for a in assumptions:
             self.assume(a)
 
@@ -218,7 +219,34 @@ class Context:
                 self.alternatives.append([d for _, d in self.decisions] + [False])
         self.decisions.append((b, v))
         self.known[b.id] = v
+        if v and b.kind == "eq0":
+            self._learn_equality(b.args[0])
         return v != neg
+
+    # --- equalities decided on this path, as a substitution (used to recognise systems / values that are
+    #     equal *under the path condition*; every use is an equivalence given the path condition)
+    def _learn_equality(self, p):
+        try:
+            q = T.substitute(p, self.subst) if self.subst else p
+            sol = T.linear_solution(q)
+            if sol is None:
+                return
+            v, expr = sol
+            if any(a.kind not in ("var",) for a in T.collect_atoms([expr])):
+                return
+            self.subst = {k: T.substitute(e, {v: expr}) for k, e in self.subst.items()}
+            self.subst[v] = expr
+        except (ZeroDivisionError, Unsupported):
+            return
+
+    def normal(self, p):
+        """p rewritten with the equalities decided true on this path (equal to p under the path condition)."""
+        if not self.subst:
+            return p
+        try:
+            return T.substitute(p, self.subst)
+        except (ZeroDivisionError, Unsupported):
+            return p
 
     def _feas(self, conds):
         if self.feasible is None:
